@@ -120,6 +120,20 @@ static void add_aux(Table& t, int naux) {
   }
 }
 
+// cards at the limits: maximal standard and HIERARCH values, quotes (doubled on the card), leading blanks, 8-character and 66-character keys
+static void add_aux_maximal(Table& t) {
+  t.write_key("A", std::string(68, 'm'));
+  t.write_key("ABCDEFGH", std::string(34, '\''));
+  t.write_key("QUOTES", std::string("it's 'quoted' ''twice''"));
+  t.write_key("LEADING", std::string("  two leading blanks"));
+  t.write_key("EMPTY", std::string(""));
+  t.write_key("LONGKEYNAMEFORAHIERARCHCARD", std::string(80 - (13 + 27), 'h'));
+  t.write_key(std::string(66, 'K').c_str(), std::string("v"));
+  t.write_key("KEY WITH BLANKS", std::string("a / b"));
+  t.write_key("NEGATIVE", -123456789);
+}
+static void rt_core(tg::TableSpec& s, int naux, int auxstyle, bool disk, bool has_nan, bool periods, const std::string& tabkey);
+
 static std::string scratch_name(const char* tag) { return vf::fmt("c06_%d_%s.fits", (int)getpid(), tag); }
 
 static void run_rt(uint64_t idx) {
@@ -140,9 +154,30 @@ static void run_rt(uint64_t idx) {
   if (nondef_ext) for (int i = 0; i < d; i++) { s.extents.push_back(s.dims[i].knots.front() - 1.5 - i); s.extents.push_back(s.dims[i].knots.back() + 0.25 * (i + 1)); }
   if (periods) for (int i = 0; i < d; i++) s.periods.push_back(i % 2 ? 0.0 : 360.0 / (i + 1));
   std::string tabkey = vf::fmt("d=%d:orders=%s:coef=%s:extents=%s:periods=%s:naux=%d:%s", d, vf::vecstr(o).c_str(), ck ? "extreme" : "seeded", nondef_ext ? "custom" : "default", periods ? "yes" : "null", naux, disk ? "disk" : "mem");
+  rt_core(s, naux, 0, disk, has_nan, periods, tabkey);
+}
+// FITS is organised in 2880-byte blocks: tables whose coefficient image or knot extension ends exactly on, one element before or
+// one element after a block edge (720 floats / 360 doubles per block), and header cards of maximal length
+static void run_blocks(uint64_t idx) {
+  static const vf::Radix R{14, 2, 2, 2};
+  auto v = R.decode(idx);
+  int shape = v[0]; uint32_t o = v[1] ? 3 : 0; int auxstyle = v[2]; bool disk = v[3];
+  tg::TableSpec s; std::string what;
+  static const int NC1[] = {719, 720, 721, 1439, 1440, 1441};      // 1-d: number of coefficients
+  static const int NK1[] = {359, 360, 361, 720, 1080};              // 1-d: number of knots
+  if (shape < 6) { int nc = NC1[shape]; s.dims.push_back({o, tg::make_knots(tg::K_IRREGULAR, o, nc + o + 1, 0.25)}); what = vf::fmt("1d:%d-coefficients", nc); }
+  else if (shape < 11) { int nk = NK1[shape - 6]; s.dims.push_back({o, tg::make_knots(tg::K_UNIFORM, o, nk, -3.0)}); what = vf::fmt("1d:%d-knots", nk); }
+  else if (shape == 11) { s.dims.push_back({o, tg::make_knots(tg::K_UNIFORM, o, 24 + o + 1, 0)}); s.dims.push_back({2, tg::make_knots(tg::K_IRREGULAR, 2, 30 + 3, 1)}); what = "2d:24x30=720-coefficients"; }
+  else if (shape == 12) { s.dims.push_back({o, tg::make_knots(tg::K_UNIFORM, o, 7 + o + 1, 0)}); s.dims.push_back({1, tg::make_knots(tg::K_IRREGULAR, 1, 103 + 2, 1)}); what = "2d:7x103=721-coefficients"; }
+  else { s.dims.push_back({1, tg::make_knots(tg::K_UNIFORM, 1, 8 + 2, 0)}); s.dims.push_back({o, tg::make_knots(tg::K_UNIFORM, o, 9 + o + 1, 0)}); s.dims.push_back({2, tg::make_knots(tg::K_IRREGULAR, 2, 10 + 3, 1)}); what = "3d:8x9x10=720-coefficients"; }
+  s.coeffs = tg::make_coeffs(2, s.ncoeffs(), H->seed, idx);
+  std::string tabkey = vf::fmt("blocks:%s:order0=%u:aux=%s:%s", what.c_str(), o, auxstyle ? "maximal-cards" : "none", disk ? "disk" : "mem");
+  rt_core(s, auxstyle ? 9 : 0, auxstyle, disk, false, false, tabkey);
+}
+static void rt_core(tg::TableSpec& s, int naux, int auxstyle, bool disk, bool has_nan, bool periods, const std::string& tabkey) {
   H->hint(tabkey);
   Table t; tg::build(t, s);
-  add_aux(t, naux);
+  if (auxstyle == 0) add_aux(t, naux); else add_aux_maximal(t);
   std::string where = "[" + tabkey + "]";
   // (1) library round trip + (2) independent reader on the bytes
   fr::Bytes bytes;
@@ -236,11 +271,12 @@ int main(int argc, char** argv) {
   vf::Harness h("C06", argc, argv);
   H = &h;
   h.meta("level", "exploration");
-  h.meta("rule", "complete walk: d=1..9 (pairwise different axis lengths naxes_i=order_i+1+i) x 3 order patterns x {seeded, extreme: +-0, denormal, +-FLT_MAX, +-inf, NaN with payload} x {default, custom} extents x {periods, none} x {0,1,5,40} aux keys (int, double, strings, HIERARCH keys; 40 forces a second header block) x {disk, memory}; per case: library round trip (C++ and C reader) compared field by field + operator== + identical evaluation, the written bytes parsed by ref/fits_ref.hpp (BITPIX -32, reversed NAXISn, ORDERn, PERIODn, KNOTSn/EXTENTS double extensions by EXTNAME, aux order), the same table produced by the independent writer and read by the library; legacy space: 1..5 dims x {ORDER, ORDERn} x {EXTENTS, none} x {PERIODn, none} x BITPIX {-32,-64,16,32} x {disk, memory}; shipped space: the ten reference files (independent decode == library decode == recorded digest); distinct = case descriptor");
+  h.meta("rule", "complete walk: d=1..9 (pairwise different axis lengths naxes_i=order_i+1+i) x 3 order patterns x {seeded, extreme: +-0, denormal, +-FLT_MAX, +-inf, NaN with payload} x {default, custom} extents x {periods, none} x {0,1,5,40} aux keys (int, double, strings, HIERARCH keys; 40 forces a second header block) x {disk, memory}; per case: library round trip (C++ and C reader) compared field by field + operator== + identical evaluation, the written bytes parsed by ref/fits_ref.hpp (BITPIX -32, reversed NAXISn, ORDERn, PERIODn, KNOTSn/EXTENTS double extensions by EXTNAME, aux order), the same table produced by the independent writer and read by the library; blocks space: 1-d tables with 719/720/721/1439/1440/1441 coefficients or 359/360/361/720/1080 knots, 2-d and 3-d tables with exactly 720 / 721 coefficients (a FITS block holds 720 floats or 360 doubles) x order {0,3} x {no keys, nine cards at the limits: maximal standard / HIERARCH values, doubled quotes, leading blanks, empty value, 8- and 66-character keys, key with blanks} x {disk, memory}; legacy space: 1..5 dims x {ORDER, ORDERn} x {EXTENTS, none} x {PERIODn, none} x BITPIX {-32,-64,16,32} x {disk, memory}; shipped space: the ten reference files (independent decode == library decode == recorded digest); distinct = case descriptor");
   h.meta("assumption", "ref/fits_ref.hpp is the independent reader/writer; shipped digests recorded in ref/shipped_digests.txt at the pinned commit");
   h.timeout_s = 120;
   h.add_space("shipped", 10, run_shipped);
   h.add_space("legacy", 5 * 2 * 2 * 2 * 4 * 2, run_legacy);
   h.add_space("rt", 9 * 3 * 2 * 2 * 2 * 4 * 2, run_rt);
+  h.add_space("blocks", 14 * 2 * 2 * 2, run_blocks);
   return h.main();
 }
